@@ -145,6 +145,21 @@ fn off_in(r: &mut Rng, g: &Reg) -> usize {
 }
 
 fn junk_block(r: &mut Rng) -> Vec<u8> {
+    // rarely: a hole larger than any message (zero-filled or garbage sectors after power loss),
+    // around the 16 + 65535 boundary and well beyond it
+    if r.chance(1, 120) {
+        let n = match r.below(4) {
+            0 => 65_551 - 8 + r.below(16),
+            1 => 65_536 + r.below(64),
+            2 => 70_000 + r.below(1000),
+            _ => 131_072 + r.below(100),
+        };
+        let mut b = if r.bool() { vec![0u8; n] } else { r.bytes(n) };
+        while let Some(i) = crate::model::naive_find(&b) {
+            b[i + 3] = 0x02;
+        }
+        return b;
+    }
     let n = match r.below(10) {
         0 => 0,
         1 => 1 + r.below(3),
